@@ -247,6 +247,31 @@ class TolKey:
         return 0
 
 
+import functools as _functools
+
+
+@_functools.total_ordering
+class LtOnly:
+    """["L", key, uid]: a class that defines only ``__lt__`` (by key) and gets the other comparisons from
+    functools.total_ordering, with IDENTITY equality: for two distinct items of equal key neither is ``<`` the other,
+    yet each is ``>`` (and ``!=``) the other - ``a > b`` is not ``b < a`` here"""
+
+    __slots__ = ("key", "uid")
+
+    def __init__(self, key, uid):
+        self.key, self.uid = key, uid
+
+    def __repr__(self):
+        return f"LtOnly({self.key},{self.uid})"
+
+    def __lt__(self, other):
+        if not isinstance(other, LtOnly):
+            return NotImplemented
+        return self.key < other.key
+
+    __hash__ = object.__hash__
+
+
 class StrictKey:
     """["SK", k]: a key that only knows how to compare itself with its own kind: ``==`` with anything else raises
     (like a version or a unit-carrying quantity)"""
@@ -278,6 +303,8 @@ def mat(v):
         return OddKey(v[1], v[2])
     if t == "SK":
         return StrictKey(v[1])
+    if t == "L":
+        return LtOnly(v[1], v[2])
     if t == "T":
         return TolKey(v[1])
     if t == "E":
@@ -352,6 +379,8 @@ def sig(o):
         return ("T", o.k)
     if isinstance(o, StrictKey):
         return ("SK", o.k)
+    if isinstance(o, LtOnly):
+        return ("L", o.key, _uid(o.uid))
     if o is None:
         return ("n",)
     tp = type(o)
